@@ -44,7 +44,7 @@ CHECK_DEADLOCK FALSE
 """
 
 
-def build_file(path, residues, vel, title, box):
+def build_file(path, residues, vel, title, box, crlf=False):
     """residues: list of (resid, resname, [atom names]); every atom gets a unique number/coordinates.
     -> atom level records (the independent truth)."""
     recs = []
@@ -57,7 +57,7 @@ def build_file(path, residues, vel, title, box):
                 v = (0.0, 0.0, 0.0)          # an atom at rest still has a velocity record
             recs.append((rid, rn, an, pos + 1, p) + ((v,) if vel else ()))
             pos += 1
-    synth.write_gro(path, recs, box=box, title=title)
+    synth.write_gro(path, recs, box=box, title=title, newline='\r\n' if crlf else None)
     return recs
 
 
@@ -158,7 +158,8 @@ def battery(nres):
     ops = [('len',), ('iterall',)]
     ops += [('get', k) for k in range(-nres - 2, nres + 2)]
     for a, b, c in [(NONE, NONE, NONE), (1, NONE, NONE), (NONE, -1, NONE), (NONE, NONE, -1), (-3, 7, 2), (3, 0, -2),
-                    (0, 2, NONE), (-2, NONE, NONE), (NONE, NONE, 2), (2, NONE, -1), (NONE, 1, -1)]:
+                    (0, 2, NONE), (-2, NONE, NONE), (NONE, NONE, 2), (2, NONE, -1), (NONE, 1, -1), (NONE, NONE, -2), (NONE, NONE, -3),
+                    (-2, NONE, -2), (NONE, 0, -2)]:
         ops.append(('slice', a, b, c))
     # two iterators interleaved with random access
     ops += [('iter', 1), ('next', 1), ('iter', 2), ('next', 2), ('get', 0), ('next', 1), ('get', -1), ('next', 2),
@@ -257,7 +258,7 @@ def _work(args):
                 title = rng.choice(['Random system', 'x', 'Title with, punctuation t= 1.0'])
                 box = rng.choice([(3.0, 4.0, 5.0), (7.5, 7.5, 7.5, 0.0, 0.0, 1.25, 0.0, -2.5, 0.5)])
                 ops = random_ops(rng, len(residues), rng.randint(1, oplen))
-            recs = build_file(path, residues, vel, title, box)
+            recs = build_file(path, residues, vel, title, box, crlf=(tid % 5 == 4))      # every fifth file has DOS line ends
             try:
                 ev = common.guarded(record, 180, path, recs, ops, title, box)
             except Exception as exc:
